@@ -29,7 +29,7 @@ fn run(api: usize, file: &[u8], payload_at: usize, props: Props, dict: u32, len:
     crate::alloc::reset();
     let verdict = match api {
         0 => sut::decode(Entry::Lzma, file, &sut::opts(us, memlimit, allow_inc), ReaderKind::Slice, &sink, &obs).verdict,
-        1 => streamdrv::drive(file, &sut::opts(us, memlimit, allow_inc), cuts, &DriveOpts::default(), &sink, &obs).verdict,
+        1 => streamdrv::drive(file, &sut::opts(us, memlimit, allow_inc), cuts, &DriveOpts { flush_between: file.len() % 3 == 1, ..DriveOpts::default() }, &sink, &obs).verdict,
         2 => match sut::raw_lzma_new(props.lc, props.lp, props.pb, dict, Some(len), memlimit) {
             Ok(mut d) => sut::raw_lzma_decompress(&mut d, &file[payload_at..], ReaderKind::Slice, &sink, &obs).verdict,
             Err(v) => v,
